@@ -532,29 +532,25 @@ func movingParamUnderWrapper(e parser.Expr) bool {
 		if !ok {
 			return nil
 		}
-		inner := si.Expr
-		for {
-			if p, ok := inner.(*parser.ParenExpr); ok {
-				inner = p.Expr
-				continue
+		// anywhere inside the wrapper: an aggregation whose parameter moves with the step
+		parser.Inspect(si.Expr, func(k parser.Node, _ []parser.Node) error {
+			a, ok := k.(*parser.AggregateExpr)
+			if !ok || a.Param == nil {
+				return nil
 			}
-			break
-		}
-		a, ok := inner.(*parser.AggregateExpr)
-		if !ok || a.Param == nil {
-			return nil
-		}
-		parser.Inspect(a.Param, func(m parser.Node, _ []parser.Node) error {
-			switch x := m.(type) {
-			case *parser.VectorSelector:
-				if x.Timestamp == nil {
-					found = true
+			parser.Inspect(a.Param, func(m parser.Node, _ []parser.Node) error {
+				switch x := m.(type) {
+				case *parser.VectorSelector:
+					if x.Timestamp == nil {
+						found = true
+					}
+				case *parser.Call:
+					if x.Func.Name == "time" {
+						found = true
+					}
 				}
-			case *parser.Call:
-				if x.Func.Name == "time" {
-					found = true
-				}
-			}
+				return nil
+			})
 			return nil
 		})
 		return nil
